@@ -115,6 +115,12 @@ func tokenize(s string) ([]token, error) {
 			// ignore
 		case isIDStart(c):
 			bt, bl := readBareword(s[i:])
+			if upperASCII(bt) == "AS" {
+				// AS is a reserved word: unquoted it can't be a name. It comes
+				// with generated columns (`x AS (1)` would otherwise read as a
+				// column of type AS(1)), CAST, and CREATE TABLE AS.
+				return res, errors.New("unsupported: AS")
+			}
 			tnr := tBare
 			if n, ok := keywords[upperASCII(bt)]; ok {
 				tnr = n
